@@ -308,7 +308,8 @@ class IH5Record(IH5Group):
 
         The base container is exposed as the `writable` container.
         """
-        record = Path(record)  # in case it was a str
+        # (absolute: must be the same files also if the working directory changes)
+        record = Path(record).absolute()
         if not cls._is_valid_record_name(record.name):
             raise ValueError(f"Invalid record name: '{record.name}'")
         path = cls._base_filename(record)
@@ -340,6 +341,8 @@ class IH5Record(IH5Group):
         """
         if not paths:
             raise ValueError("Cannot open empty list of containers!")
+        # (absolute: must be the same files also if the working directory changes)
+        paths = [Path(path).absolute() for path in paths]
         allow_baseless: bool = kwargs.pop("allow_baseless", False)
 
         ret = cls.__new__(cls)
